@@ -33,7 +33,7 @@ def check(run, only_cases=None):
     thorough = run.tier == "thorough"
     run.rule = ("inputs: every code point (thorough) or all < U+3000 + range edges + a seeded stride (quick) as "
                 "one-character strings, every invalid byte, all pairs over a 43-character boundary alphabet, seeded "
-                "random strings; x 5 escapers, each called directly and as registered in the Twig environment. non-trivial = the input contains a character the escaper rewrites "
+                "random strings; x 5 escapers, each called directly, as registered in the Twig environment, and through the escape filter on a value marked safe for another content type. non-trivial = the input contains a character the escaper rewrites "
                 "(output differs from input)")
     run.assumptions = ["decoders of the target contexts are the ones transcribed in spec/Escape.tla",
                        "html_attr: inputs with control characters and css: inputs with U+0000 are judged on inertness only"]
@@ -48,7 +48,12 @@ def check(run, only_cases=None):
     cases = only_cases or common.run_gen("c13", 2000 if thorough else 200, run.seed, run.tier)
     if only_cases is None:
         # the same inputs through the escapers the Twig environment registers (what templates and the escape filter call)
-        cases = cases + [dict(c, id=c["id"] + "/env", via="env") for c in cases]
+        types = ["html", "html_attr", "js", "css", "url"]
+        def other(c, k):
+            return [t for t in types if t != c["fn"]][k % 4]
+        cases = (cases + [dict(c, id=c["id"] + "/env", via="env") for c in cases]
+                 # ... and through the escape filter, on a value marked safe for one of the OTHER four content types
+                 + [dict(c, id=c["id"] + "/flt", via="filter:" + other(c, k)) for k, c in enumerate(cases)])
     obs, hooks = common.run_pool(cases, deadline_ms=5000)
     run.hooks = hooks
     events, idx = [], []
